@@ -40,7 +40,7 @@ func c18Prog(r *Rng, idx int) *Prog {
 			case k == KIncr || k.IsInt() && !k.IsMulti():
 				o.DefI = []int{0, 7, -3, 12345}[r.Intn(4)]
 			case k == KString || k == KStringOpt:
-				o.DefS = []string{"", "dflt" + strconv.Itoa(o.ID), "two words"}[r.Intn(3)]
+				o.DefS = []string{"", "dflt" + strconv.Itoa(o.ID), "two words", `C:\tmp\out`, `say "hi"`, "tab\there", "100% é"}[r.Intn(7)]
 			case k == KFloat || k == KFloatOpt:
 				o.DefF = []float64{0, 1.5, -2.25}[r.Intn(3)]
 			case k.IsMulti():
@@ -65,6 +65,15 @@ func c18Prog(r *Rng, idx int) *Prog {
 			case 3:
 				o.Desc = fmt.Sprintf("DESC-%s-END", o.Name)
 				o.ArgName = "arg" + strconv.Itoa(o.ID)
+			}
+			if r.Chance(1, 12) && k != KBool {
+				// an entry wider than the 80 columns the synopsis wraps at
+				o.ArgName = "arg" + strconv.Itoa(o.ID) + strings.Repeat("x", 70+r.Intn(40))
+			}
+			if r.Chance(1, 15) {
+				for j := 0; j < 5; j++ {
+					o.Aliases = append(o.Aliases, fmt.Sprintf("a%dlong%sx%dz", o.ID, strings.Repeat("w", 12), j+10))
+				}
 			}
 			out = append(out, o)
 		}
@@ -347,7 +356,7 @@ func init() {
 		Technique: "runtime monitor: structural counter over the sections/entries of the help text produced by the real library (option lists, required section, defaults, env, synopsis, commands) + three-way equality of the text obtained through help option, help command and Help()",
 		Rule: "case = program with all 12 option kinds stratified (2 forced kinds per case), 0-3 aliases (long and one-letter), required/optional, env binding, single/multi-line descriptions, argument names, synopsis args, command tree depth<=3 with wrappers; every level of the tree is checked; names are generated so that none is a substring of another; " +
 			"distinct = (kinds/aliases/required/env shape of the level); non-trivial = the level has at least 2 options",
-		Cases: func(tier string) int { return tierN(tier, 2400, 60000) },
+		Cases: func(tier string) int { return tierN(tier, 2400, 600000) },
 		Run: func(seed uint64, idx int, tier string) *fw.Result {
 			r := CaseRng(seed, "C18", idx)
 			p := c18Prog(r, idx)
